@@ -15,7 +15,12 @@
 (*            present); gcKey normalizes the path (KeyMode "clean"; the     *)
 (*            literal r.Path of the tree as found and a symlink resolving   *)
 (*            variant are kept as switches for expected counterexamples)    *)
-(*   per ImageCopy call c (image.go): cst (idle / run / fail / ok / err),   *)
+(*   gcr      the collection running inside Close (close.go): its key, the  *)
+(*            digest list dl of the mark phase, the blobs/<alg> directories *)
+(*            listed and not swept yet; dirs: the blobs/<alg> directories   *)
+(*            that exist                                                    *)
+(*   per ImageCopy call c (image.go): cst (idle / call = waiting in GCLock  *)
+(*   for OCIDir.mu / run / fail / ok / err),                                *)
 (*   act (running imageCopyOpt instances), need (looked up in the layout,   *)
 (*   not there: to be fetched from the source), hit (what the target tag    *)
 (*   named when the copy looked), got (source manifests fetched), tmpf      *)
@@ -46,10 +51,22 @@
 (*   CopyEnd          ImageCopy returns nil; deferred GCUnlock              *)
 (*   CopyAbort        a source request fails, ImageCopy returns the error;  *)
 (*   CopyFailEnd      deferred GCUnlock runs on the error path as well      *)
-(*   Close            ocidir/close.go:Close, with any context (skip if gc   *)
-(*                    off / no entry /                                      *)
-(*                    not mod / locks>0; else mark = closeProcManifest from *)
-(*                    index.json, sweep blobs/, delete the modRefs entry)   *)
+(*   Close            ocidir/close.go:Close, with any context, that skips   *)
+(*                    (gc off / no entry / not mod / locks>0) or fails      *)
+(*                    (no index.json)                                       *)
+(*   CloseBegin       Close that collects: OCIDir.mu taken, lock check,     *)
+(*                    mark = closeProcManifest from index.json, ReadDir of  *)
+(*                    blobs/ (the algorithm directories there are)          *)
+(*   SweepDir         Close: ReadDir of the next blobs/<alg> (sorted), every *)
+(*                    entry not marked is removed                           *)
+(*   CloseEnd         Close: the modRefs entry is deleted, OCIDir.mu released *)
+(*                    (deferred Unlock).  The mutex is held from CloseBegin *)
+(*                    to CloseEnd (SweepLocked): nothing else that takes    *)
+(*                    OCIDir.mu happens in between; a call made meanwhile   *)
+(*                    waits:                                                *)
+(*   CopyCall         ImageCopy called while a collection holds OCIDir.mu:   *)
+(*                    it waits in GCLock (CopyBegin follows once the mutex  *)
+(*                    is free)                                              *)
 (*   TagDelete        ocidir/tag.go:tagDelete (every entry of the tag)      *)
 (*   ManifestDelete   ocidir/manifest.go:ManifestDelete (referrerDelete for *)
 (*                    a manifest with a subject, index entries, file)       *)
@@ -110,8 +127,16 @@ CONSTANTS Copies,     \* ids of the ImageCopy calls, e.g. {"c1", "c2"}
                       \* (hand-made partial order reduction for the graph-shape configurations;
                       \* the lock configurations are explored with every interleaving)
 
-VARIABLES conf, files, idx, hasidx, modRefs, cst, act, need, hit, got, tmpf, fin, rl, closes, ops
-vars == <<conf, files, idx, hasidx, modRefs, cst, act, need, hit, got, tmpf, fin, rl, closes, ops>>
+VARIABLES conf, files, idx, hasidx, modRefs, cst, act, need, hit, got, tmpf, fin, rl, closes, ops,
+          gcr,    \* the collection in progress inside Close: [on, k (its key), mark (digest list dl),
+                  \* todo (algorithm directories listed by ReadDir(blobs/) and not swept yet)]
+          dirs    \* the directories blobs/<alg> that exist (nothing ever removes one)
+vars == <<conf, files, idx, hasidx, modRefs, cst, act, need, hit, got, tmpf, fin, rl, closes, ops, gcr, dirs>>
+
+\* TRUE: Close holds OCIDir.mu from the lock check to the end of the sweep (deferred Unlock: the code
+\* as it is).  FALSE (overridden in an expected-counterexample configuration only, seeded C08-9): the
+\* entry is deleted and the mutex released once the mark phase is done, the sweep runs without it.
+SweepLocked == TRUE
 
 -----------------------------------------------------------------------------
 (* The catalogue of image graphs held by the source registry.               *)
@@ -144,6 +169,8 @@ RName(S) == IF S = {"A1"} THEN "R1" ELSE IF S = {"A2"} THEN "R2"
 Referrers(n) == {a \in Mans : Cat[a].subj = n}
 Nodes == Mans \cup UNION {Kids(n) : n \in Mans}
 Tmp(c, b) == "tmp-" \o c \o "-" \o b        \* BlobPut temp file of copy c for blob b
+\* the algorithm directory a file lives in: L5 is addressed by sha512, and so is the temp file of its put
+Alg(x) == IF x = "L5" \/ x \in {"tmp-" \o c \o "-L5" : c \in Copies} THEN "sha512" ELSE "sha256"
 TmpNames == {Tmp(c, b) : c \in Copies, b \in Nodes} \cup {"tmp-bad", "tmp-plant", "tmp-plant-man"}
 IsTmp(x) == x \in TmpNames
 \* ocidir.go:gcKey: filepath.Clean + Abs; the spellings used here are the path ("p") and the path
@@ -245,6 +272,8 @@ InProg(c) == cst[c] \in {"run", "fail"}          \* between GCLock and GCUnlock
 Sel(c, n) == (Cat[n].sub \cap Mans) \ CP(c).skip   \* child manifests kept by ImageWithPlatforms
 PreFiles == Closure(Nodes, {p[1] : p \in conf.pre})
 
+NoGC == [on |-> FALSE, k |-> "", mark |-> {}, todo |-> {}]
+MutexFree == ~gcr.on \/ ~SweepLocked      \* OCIDir.mu is not held by a collection
 Init ==
   /\ conf \in Confs
   /\ files = PreFiles \cup conf.plant
@@ -261,12 +290,20 @@ Init ==
   /\ rl = [c \in Copies |-> {}]
   /\ closes = 0
   /\ ops = 0
+  /\ gcr = NoGC
+  /\ dirs = {Alg(x) : x \in PreFiles \cup conf.plant}
 
-Done == (\A c \in Copies : cst[c] \in {"ok", "err"}) /\ closes = MaxCloses
+Done == (\A c \in Copies : cst[c] \in {"ok", "err"}) /\ closes = MaxCloses /\ ~gcr.on
 
 \* ---- copies ----
+\* ImageCopy is called while a collection holds the mutex: GCLock waits
+CopyCall(c) ==
+  /\ gcr.on /\ cst[c] = "idle"
+  /\ cst' = [cst EXCEPT ![c] = "call"]
+  /\ UNCHANGED <<conf, files, idx, hasidx, modRefs, act, need, hit, got, tmpf, fin, rl, closes, ops>>
+
 CopyBegin(c) ==
-  /\ cst[c] = "idle"
+  /\ cst[c] \in {"idle", "call"}
   /\ cst' = [cst EXCEPT ![c] = "run"]
   /\ act' = [act EXCEPT ![c] = {CP(c).root}]
   /\ modRefs' = LockAll(modRefs, c)
@@ -405,15 +442,33 @@ CopyFailDrain(c, b) ==
 GCRuns(k) == conf.gc /\ modRefs[k].ex /\ modRefs[k].mod /\ modRefs[k].locks = 0 /\ hasidx
 \* x: the context of the call.  Close never checks it and neither does anything the mark phase calls,
 \* so the result does not depend on it (unless MarkCtx).
-Close(kk, x) ==
+Close(kk, x) ==        \* a close that does not collect
   LET k == GcKey(kk) IN
-  /\ closes < MaxCloses
+  /\ closes < MaxCloses /\ ~GCRuns(k)
   /\ closes' = closes + 1
-  /\ IF GCRuns(k)
-     THEN /\ files' = files \cap (IF MarkCtx /\ x # "bg" THEN {e[2] : e \in idx} ELSE MarkAll(files, idx))
-          /\ modRefs' = [modRefs EXCEPT ![k] = NoEntry]
-     ELSE UNCHANGED <<files, modRefs>>
-  /\ UNCHANGED <<conf, idx, hasidx, cst, act, need, hit, got, tmpf, fin, rl, ops>>
+  /\ UNCHANGED <<conf, files, modRefs, idx, hasidx, cst, act, need, hit, got, tmpf, fin, rl, ops>>
+
+CloseBegin(kk, x) ==   \* lock check passed: mark phase, ReadDir(blobs/)
+  LET k == GcKey(kk) IN
+  /\ closes < MaxCloses /\ GCRuns(k) /\ ~gcr.on
+  /\ closes' = closes + 1
+  /\ gcr' = [on |-> TRUE, k |-> k, todo |-> dirs,
+             mark |-> IF MarkCtx /\ x # "bg" THEN {e[2] : e \in idx} ELSE MarkAll(files, idx)]
+  /\ modRefs' = IF SweepLocked THEN modRefs ELSE [modRefs EXCEPT ![k] = NoEntry]
+  /\ UNCHANGED <<conf, files, idx, hasidx, cst, act, need, hit, got, tmpf, fin, rl, ops>>
+
+NextDir == IF "sha256" \in gcr.todo THEN "sha256" ELSE "sha512"      \* os.ReadDir sorts
+SweepDir ==            \* ReadDir(blobs/<alg>) and the removal of everything in it that is not marked
+  /\ gcr.on /\ gcr.todo # {}
+  /\ files' = {f \in files : Alg(f) # NextDir \/ f \in gcr.mark}
+  /\ gcr' = [gcr EXCEPT !.todo = @ \ {NextDir}]
+  /\ UNCHANGED <<conf, idx, hasidx, modRefs, cst, act, need, hit, got, tmpf, fin, rl, closes, ops>>
+
+CloseEnd ==
+  /\ gcr.on /\ gcr.todo = {}
+  /\ gcr' = NoGC
+  /\ modRefs' = IF SweepLocked THEN [modRefs EXCEPT ![gcr.k] = NoEntry] ELSE modRefs
+  /\ UNCHANGED <<conf, files, idx, hasidx, cst, act, need, hit, got, tmpf, fin, rl, closes, ops>>
 
 \* ---- other calls through the same client (no GC lock) ----
 Op == ops < MaxOps /\ ops' = ops + 1
@@ -469,12 +524,13 @@ PushManifest(p) ==
 Internal(c) == \/ \E n \in Mans : CopyCheck(c, n) \/ CopyPutManifest(c, n)
                \/ \E b \in Nodes : CopyBlobCheck(c, b) \/ CopyBlobCommit(c, b) \/ CopyFailDrain(c, b)
                \/ CopyEnd(c) \/ CopyFailEnd(c)
+               \/ (cst[c] = "call" /\ CopyBegin(c))        \* GCLock gets the mutex
 \* steps that wait for a reply of the source registry
 Gated(c) == \/ CopyHeadSame(c) \/ CopyAbort(c)
             \/ \E n \in Mans : CopyFetch(c, n) \/ CopyRefList(c, n)
             \/ \E b \in Nodes : CopyBlobStart(c, b)
 \* calls made by other goroutines of the program
-Calls == \/ \E c \in Copies : CopyBegin(c)
+Calls == \/ \E c \in Copies : cst[c] = "idle" /\ CopyBegin(c)
          \/ \E k \in conf.ckeys, x \in CtxKinds : Close(k, x)
          \/ \E t \in {e[1] : e \in idx} : TagDelete(t)
          \/ \E n \in Mans : ManifestDelete(n)
@@ -483,10 +539,20 @@ Calls == \/ \E c \in Copies : CopyBegin(c)
          \/ PushBlobBad
          \/ \E p \in conf.pmans : PushManifest(p)
 
-AnyInternal == \E c \in Copies : ENABLED Internal(c)
+AnyInternal == MutexFree /\ \E c \in Copies : ENABLED Internal(c)
+\* everything above takes OCIDir.mu (or follows something that does) and leaves the collection alone
+Old == IF Eager /\ AnyInternal THEN \E c \in Copies : Internal(c)
+       ELSE Calls \/ \E c \in Copies : Internal(c) \/ Gated(c)
+\* the steps of a collecting Close and the calls made while it holds the mutex
+Collect == \/ \E k \in conf.ckeys, x \in CtxKinds : CloseBegin(k, x)
+           \/ SweepDir \/ CloseEnd
+DirsNext == dirs' = dirs \cup {Alg(x) : x \in files'}
 Next == /\ ~Done
-        /\ IF Eager /\ AnyInternal THEN \E c \in Copies : Internal(c)
-           ELSE Calls \/ \E c \in Copies : Internal(c) \/ Gated(c)
+        /\ \/ MutexFree /\ Old /\ gcr' = gcr
+           \/ MutexFree /\ ~(Eager /\ AnyInternal) /\ Collect
+           \/ ~MutexFree /\ Collect
+           \/ (\E c \in Copies : CopyCall(c)) /\ gcr' = gcr
+        /\ DirsNext
 Spec == Init /\ [][Next]_vars
 
 -----------------------------------------------------------------------------
@@ -496,6 +562,7 @@ TypeOK ==
   /\ \A e \in idx : e[2] \in Mans
   /\ \A k \in Keys : modRefs[k].locks \in Nat
   /\ idx # {} => hasidx
+  /\ gcr.todo \subseteq dirs /\ {Alg(x) : x \in files} \subseteq dirs
 LocksNonNeg == \A k \in Keys : modRefs[k].locks >= 0
 \* the lock count of a path is the number of copies in progress with that path; in particular an
 \* entry is never deleted (by Close, or by anything else) while it carries a positive count
@@ -508,18 +575,18 @@ MarkIsReach == MarkAll(files, idx) \cap files = Reach(files, idx) \cap files
 \* an index entry made by the fall-back tag always has its file (referrerPut never errors)
 FallbackPresent == RefCur(idx) # "none" => RefCur(idx) \in files
 
-CloseStep == closes' = closes + 1
-RanGC == files' # files \/ \E k \in Keys : modRefs[k].ex /\ ~modRefs'[k].ex
+CloseStep == closes' = closes + 1                 \* Close is called (and returns at once unless it collects)
+GCStep == gcr.on /\ gcr' # gcr                    \* a step of the sweep, or its end
 \* O1: a close removes nothing the index reaches
-O1 == [][CloseStep => (files \cap Reach(files, idx)) \subseteq files']_vars
+O1 == [][(CloseStep \/ GCStep) => (files \cap Reach(files, idx)) \subseteq files']_vars
 \* O2: when a collection runs, unreachable digests and temp files are gone
-O2 == [][(CloseStep /\ RanGC) => files' \subseteq Reach(files, idx)]_vars
+O2 == [][(gcr.on /\ ~gcr'.on) => files' \subseteq Reach(files', idx')]_vars
 \* O3: no collection between GCLock and GCUnlock of any copy into the layout
-O3 == [][(CloseStep /\ RanGC) => \A c \in Copies : ~InProg(c)]_vars
+O3 == [][((CloseStep /\ gcr'.on) \/ GCStep) => \A c \in Copies : ~InProg(c)]_vars
 \* with collection disabled a close removes nothing
-O4 == [][(CloseStep /\ ~conf.gc) => files' = files]_vars
+O4 == [][(CloseStep /\ ~conf.gc) => (files' = files /\ ~gcr'.on)]_vars
 \* files vanish only through Close, ManifestDelete or the rename of a temp file
-OnlyCloseDeletes == [][(files \ files') # {} => (CloseStep \/ ops' = ops + 1 \/ \A x \in files \ files' : IsTmp(x))]_vars
+OnlyCloseDeletes == [][(files \ files') # {} => (GCStep \/ ops' = ops + 1 \/ \A x \in files \ files' : IsTmp(x))]_vars
 \* a copy that returns nil was never collected under: everything it handled that the index still
 \* reaches is present (no deletes in these configurations)
 CopyKeeps == \A c \in Copies : (cst[c] = "ok" /\ MaxOps = 0 /\ ~CP(c).rt) =>
